@@ -41,7 +41,7 @@ CHECKS = {
  "C07": ("headerfs component driver", "fault_enumeration",
    "Both real header stores (one shared bbolt DB) are driven by seeded histories of appends / rollbacks / reopens against an independent slice model with EVERY read method compared after every call; for a subset of histories every single-fault position (4 short-write kinds, seek/stat/truncate/sync failures on either flat file, DB update not run / rolled back) of every append and rollback is enumerated; a failed append must leave every read equal to the pre-call model and the next append must work.",
    "Single transient faults only; caller contract of the real callers (filter store rolled back before block store, filter appends only for stored blocks); behaviour after a failed ROLLBACK is recorded, not asserted (the statement covers failed appends).",
-   "runtime monitoring: reference-model comparison of every read after every operation + exhaustive single-fault injection at the File/DB boundary", "5/C07"),
+   "runtime monitoring: reference-model comparison of every read after every operation + exhaustive single-fault injection at the File/DB boundary + linearizability checking (porcupine) of recorded concurrent reader/writer histories", "5/C07 and 10.6"),
  "C09": ("rescan component driver", "exploration",
    "The real NewRescan runs over a harness ChainSource backed by a generated block tree and a real blockntfns.SubscriptionManager; chain growth / reorganisations are injected at every phase (before start, mid catch-up via gated ChainSource calls, while blocks wait for retry, when current), with scripted filter/block fetch failures and Update/Rewind at random moments; one ordered callback log is checked by a walk oracle (each connect is the child of the current block, each disconnect names it) and a relevant-transaction oracle (delivered set == txs paying then-watched scripts / spending then-watched outpoints).",
    "Two parts: component level (ChainSource boundary) and a network part in which the real NewRescan runs on the complete client (RescanChainSource) against wire peers with growth, reorganisations of depth 1-6 revealed freely or while the rescan goroutine is parked inside a callback, dropped filter/block requests, Update/Rewind; same walk and relevant-transaction oracles. An update concurrent with a callback keeps both watch states acceptable; rescans that end with an error are judged only on callbacks already delivered.",
@@ -102,7 +102,7 @@ ADD = {
  "C04": "Further phases: the honest chain returns to the branch the client left (reorg-return); a restart while peers had withheld filter headers, chain at rest afterwards; fixed scenarios with forks exactly at genesis / at the last passed checkpoint.",
  "C05": "Further families: reorganisations between calls with peers serving the replaced block's filter under the new hash; requests above the filter-header tip answered with the filter of a block L below (lag-shift), for unbatched / reverse / forward batches.",
  "C06": "Ban histories (ban, unban, re-offend, other port, restart) and IPv4 / IPv6 / mapped / expanded address spellings: after an invalid block from a host was handled it is banned under every spelling; a header lookup that answers a hash with another block's header (wrapped exported store) must never make GetBlock return that block.",
- "C07": "A third part injects double faults: an append torn to every left-over class whose clean-up truncate also fails, then reopen, append, reopen, rollback, re-add (reads beyond the tip are judged only after the reopen when a whole stray record remains, as the unchanged code needs the open-time trim). Block locators are compared exactly with the documented rule (ten single steps, then doubling).",
+ "C07": "A third part injects double faults: an append torn to every left-over class whose clean-up truncate also fails, then reopen, append, reopen, rollback, re-add (reads beyond the tip are judged only after the reopen when a whole stray record remains, as the unchanged code needs the open-time trim). Block locators are compared exactly with the documented rule (ten single steps, then doubling). A fourth part runs readers CONCURRENTLY with the writer: one goroutine applies a seeded history while three call every read method of both stores; calls and returns are stamped at the client boundary and porcupine checks the recorded history for linearizability against the plain list (timeout = inconclusive); a history that stops making progress is decided by two identical goroutine dumps (lock cycle inside headerfs = violated).",
  "C08": "START-UP family: every write-transaction boundary of neutrino.NewChainService on an empty directory (recorded in a dry run), torn genesis appends, a second generation (crash during the recovery start) and real SIGKILL at the same points; the restart goes through NewChainService. After a restart on an image whose filter tip is below its block tip, filter-header syncing must resume without a new block.",
  "C09": "Further families: rescans served from the persisted filter store after a restart / cache eviction (PersistToDisk); Update with Rewind (with and without disconnect notifications) applied while the caller's block is off the best chain.",
  "C10": "Further families: a block download that fails for every peer and is then retried (same request, duplicates, direct GetBlock); one block spending several watched outpoints in separate transactions with duplicate requests (sweep).",
